@@ -15,6 +15,7 @@ import ast
 
 from ..core import AnalysisError, finish, unparse
 from ..dataflow import Flow, chain, call_name
+from ..terms import Terms, subterms
 from ..util import calls_in, qual, formals, returns_of, has_fact
 
 WR = "rig.place_and_route.wrapper"
@@ -272,50 +273,57 @@ def _conds(fl, node):
 
 
 def r4_default_predicates(program, rep):
+    """The remover and the equivalence checker must agree on what 'default
+    routed' means; both are judged on canonical facts (terms.py), so the
+    way the conditions are nested, negated or staged does not matter."""
+    from .C04 import straight_through, STRAIGHT, _true_returns
     a = program.get(RD + ":_is_defaultable")
-    afl = Flow(a)
-    trues = [r for r in returns_of(a) if isinstance(r.value, ast.Constant)
-             and r.value.value is True]
-    b = program.get(UT + ":table_is_subset_of")
-    bfl = Flow(b)
-    sets = [d for d in bfl.defs if d.var == "default_routed" and
-            isinstance(d.value, ast.Constant) and d.value.value is True]
-    if len(trues) != 1 or len(sets) != 1:
+    TA = Terms(a)
+    ENT = ("param", formals(a)[1])
+    missing = set()
+    trues = _true_returns(TA, a)
+    if not trues:
         raise AnalysisError("default-route predicates not found")
-    ca = _conds(afl, afl.cfg.node_of(trues[0]))
-    cb = _conds(bfl, sets[0].node)
-
-    def norm(conds):
-        out = set()
-        for t, p in conds:
-            if not p and "not in" not in t:
-                # negative facts matter only for  None in sources
-                pass
-            if t.startswith("len(") and t.endswith(".sources) == 1") and p:
-                out.add("one source")
-            if t.startswith("len(") and t.endswith(".route) == 1") and p:
-                out.add("one route")
-            if (t.startswith("None not in") and p) or \
-                    (t.endswith("is not None") and p and
-                     "source" in t):
-                out.add("source known")
-            if t.endswith(".is_link") and p and "sink" in t:
-                out.add("route is link")
-            if ("opposite is" in t or "is sink.opposite" in t or
-                    "opposite ==" in t) and p:
-                out.add("straight through")
-        return out
-    na, nb = norm(ca), norm(cb)
-    want = {"one source", "one route", "source known", "route is link",
-            "straight through"}
-    rep.check(want <= na, "C01-R4", qual(a), "an entry is removed as "
-              "default-routable only under: %s" % sorted(want),
-              construct="remove predicate %s" % sorted(want - na), node=a)
-    rep.check(want <= nb, "C01-R4", qual(b), "a missing entry is accepted "
+    for r, n, facts, extra in trues:
+        missing |= set(STRAIGHT) - straight_through(facts, ENT)
+    rep.check(not missing, "C01-R4", qual(a), "an entry is removed as "
+              "default-routable only under: %s" % STRAIGHT,
+              construct="remove predicate %s" % sorted(missing), node=a)
+    b = program.get(UT + ":table_is_subset_of")
+    TB = Terms(b)
+    # the places where a key of table A that matches nothing in table B is
+    # accepted: every way of not returning False once the scan of B found
+    # no match
+    accept = []
+    for n in TB.cfg.nodes:
+        if n.kind == "stmt" and isinstance(n.ast, ast.Assign) and \
+                isinstance(n.ast.value, ast.Constant) and \
+                n.ast.value.value is True:
+            accept.append(n)
+    if not accept:
+        # written without a flag: the accepting paths are those that reach
+        # the next iteration after the inner loop was exhausted
+        raise AnalysisError("table_is_subset_of: acceptance of a "
+                            "default-routed key not found")
+    missing_b = set()
+    for n in accept:
+        facts = TB.all_facts(n)
+        ents = set()
+        for t, p in facts:
+            for st in subterms(t):
+                if st[0] == "attr" and st[2] in ("route", "sources"):
+                    ents.add(st[1])
+        best = set(STRAIGHT)
+        for e in ents:
+            miss = set(STRAIGHT) - straight_through(facts, e)
+            if len(miss) < len(best):
+                best = miss
+        missing_b |= best
+    rep.check(not missing_b, "C01-R4", qual(b), "a missing entry is accepted "
               "as default-routed only under the same five conditions",
-              construct="accept predicate %s" % sorted(want - nb), node=b,
+              construct="accept predicate %s" % sorted(missing_b), node=b,
               fail="table_is_subset_of accepts a missing entry as "
-                   "default-routed without requiring %s" % sorted(want - nb))
+                   "default-routed without requiring %s" % sorted(missing_b))
 
 
 def r6_components(program, rep):
